@@ -38,8 +38,8 @@ func stressStream(o *Out, rng *rand.Rand, n int) {
 }
 
 // stressAnnRound: concurrent ANNOUNCES with a client-supplied address (allow_ip_spoofing) through the real UDP frontend.
-// Every client works on a swarm of its own, so the state the datagrams imply does not depend on the order in which
-// concurrent datagrams are processed - but it does depend on every request keeping its own bytes until its
+// Every client works on a swarm of its own and every request announces a peer of its own, so the state the datagrams
+// imply does not depend on the order in which datagrams are processed or their post-response updates applied - but it does depend on every request keeping its own bytes until its
 // post-response processing (the membership update runs after the response, when the receive buffer is back in the pool).
 // After Stop (which waits for the post-response hooks) the store must hold exactly what the datagrams imply: EDump.
 func stressAnnRound(o *Out, rng *rand.Rand, clients, perClient int) {
@@ -85,17 +85,21 @@ func stressAnnRound(o *Out, rng *rand.Rand, clients, perClient int) {
 				panic(err)
 			}
 			defer conn.Close()
-			ids := make([][]byte, 2)
+			// a peer of its own for EVERY request: the membership updates run in post-response goroutines, so two
+			// consecutive requests of one client may be applied in either order - updates of distinct peers commute,
+			// and the state the datagrams imply is the same for every such order
+			ids := make([][]byte, perClient)
 			for i := range ids {
 				ids[i] = make([]byte, 20)
 				lr.Read(ids[i])
+				ids[i][0], ids[i][1] = byte(c), byte(i)
 			}
 			for k := 0; k < perClient; k++ {
 				ipf := []byte{byte(1 + lr.Intn(200)), byte(c), byte(k), byte(1 + lr.Intn(250))}
 				if lr.Intn(6) == 0 {
 					ipf = []byte{0, 0, 0, 0} // "use the source address"
 				}
-				pkt := e2eAnnouncePacket(lr, false, ihOf[c], ids[lr.Intn(len(ids))], uint64(lr.Intn(2)), uint32(lr.Intn(4)), ipf, 50, uint16(7000+lr.Intn(3)), nil)
+				pkt := e2eAnnouncePacket(lr, false, ihOf[c], ids[k], uint64(lr.Intn(2)), uint32(lr.Intn(4)), ipf, 50, uint16(7000+lr.Intn(3)), nil)
 				copy(pkt[0:8], cid)
 				_, _ = conn.Write(pkt)
 				_ = conn.SetReadDeadline(time.Now().Add(6 * time.Second))
